@@ -502,6 +502,9 @@ func newRunner(head []string) runner {
 	if strings.HasPrefix(head[2], "join") {
 		return newJoinRun(head)
 	}
+	if strings.HasPrefix(head[2], "exact") {
+		return newExactRun(head)
+	}
 	tr, ok := parseTransform(head[3])
 	if !ok {
 		return nil
